@@ -40,6 +40,12 @@ CLAIMS = {
                 text='Returned berr equals the recomputed componentwise backward error of the returned X (on the equilibrated system), is O((n+1)eps) for cond<1/sqrt(eps); 40*ferr dominates the true relative error against the quad-precision exact solution of the original system; all trans/equed/precision combinations.', ref='5 C13'),
     'C15': dict(cat='exploration', engine='mcargs', tech='bounded-exhaustive enumeration of every single and every ordered pair of documented-precondition violations on legal baselines, with bytewise side-effect and heap-balance oracles',
                 text='8 routines x 20 legal baseline calls (real factors) x all 1258 single violations and 99218 ordered pairs, 4 precisions: info = -i and one xerbla_ call for the documented position of the first offender, every object reachable from the arguments bytewise unchanged, no allocation retained; crashes attributed per case.', ref='5 C15'),
+    'C08': dict(cat='exploration', engine='mchist', tech='bounded-exhaustive enumeration of call histories (operation sequences up to a depth) against reference oracles after every call',
+                text='Every valid history up to depth 4 (thorough 5) over {first factor, refactor(values, usepr, threads), solve-with-existing-factors(trans), destroy} on 3 patterns x value sets x internal/user workspace x 4 precisions; after every call the C02/C09 oracles for the values current at that call, pivot-reuse policy, solve residual, and bitwise immutability of A/L/U/permutations around solves.', ref='5 C08'),
+    'C17': dict(cat='exploration', engine='mchist', tech='bounded-exhaustive enumeration of call histories and driver outcomes against an allocator model (plain map of live blocks)',
+                text='All library allocations are observable (malloc/free renamed at compile time). For every history of C08 and every driver call outcome (success, singular, workspace query) on all patterns n<=3: live blocks after refactor/solve equal those after the first factorization; after the documented clean-up the heap equals its pre-history state.', ref='5 C17'),
+    'C18': dict(cat='exploration', engine='mchist', tech='bounded-exhaustive enumeration of (prefix history, probe) pairs with a differential oracle against a fresh process',
+                text='After every history of the C08 alphabet (depth<=4) and after singular / failed-allocation / expert-driver / other-size calls, a fixed probe (first factorization + solves) must produce bit-identical L, U, permutations and solutions to the same probe in a freshly forked process.', ref='5 C18'),
     'C09': dict(cat='exploration', tech='bounded-exhaustive enumeration; the statement implemented literally as a checker on every returned factorization',
                 text='wellformed(L,U,perm_r,perm_c) checks bijections, supernode partition/maps, row-list shape, U placement, extent disjointness, nnz fields and dependency order on every '
                      'successful factorization of the C02 enumeration (first-time; refactored ones in C08).', ref='5 C09'),
@@ -84,6 +90,7 @@ def main():
              'kind_free_text': 'Engine S: stateless preemption-bounded DFS over thread interleavings of the real factorization (baton scheduler over renamed pthread calls + source hooks), monitors and end-of-execution oracles in every execution, crash-resumable'},
             {'name': 'mcexpert', 'path': 'engines/mcexpert', 'serves_properties': ['C07', 'C11', 'C12', 'C13'], 'kind_free_text': 'Engine Q: expert-driver enumeration (trans x storage x fact x equed x scalings) against long-double / quad references'},
             {'name': 'mcargs', 'path': 'engines/mcargs', 'serves_properties': ['C15'], 'kind_free_text': 'Engine Q: illegal-argument enumeration (singles and ordered pairs) with side-effect / leak oracles'},
+            {'name': 'mchist', 'path': 'engines/mchist', 'serves_properties': ['C08', 'C17', 'C18'], 'kind_free_text': 'Engine Q: call-history enumeration (first factor / refactor / solve / destroy) with per-call oracles, allocator model and fresh-process differential probe'},
             {'name': 'mcseq', 'path': 'engines/mcseq', 'serves_properties': ['C01', 'C02', 'C05', 'C06', 'C09', 'C16'],
              'kind_free_text': 'Engine Q: bounded-exhaustive enumeration of inputs, options, call histories and faults of the sequential API against long-double reference models, crash-isolated'},
         ],
